@@ -196,7 +196,9 @@ def rpq_oracle_cancel(case, impl):
     got = {}
     for pp, it in items:
         got.setdefault(pp, set()).add(it)
-    slack = len(cancelled)
+    # a consumer never holds an item across an await, and a cancelled send has written nothing (C09 theorems): dropping a
+    # future loses nothing that was accepted
+    slack = 0
     for pipe, acc in accepted.items():
         missing = [x for x in acc if x not in got.get(pipe, set())]
         if len(missing) > slack:
